@@ -445,6 +445,71 @@ func c20ItemsRewritten(c *core.Ctx) bool {
 	return true
 }
 
+// c20Regexps: Match passes iff the expression it was given matches - the expression as the caller compiled it (Perl or POSIX flavour,
+// leftmost-longest or not); c20BigEnum: OneOf is membership in the list it was given, before and after a failure was reported (and its
+// message built) for that list.
+func c20Regexps(c *core.Ctx) bool {
+	longest := regexp.MustCompile(`a+|a+b`)
+	longest.Longest()
+	res := []*regexp.Regexp{regexp.MustCompilePOSIX(`^abc$`), regexp.MustCompilePOSIX(`a[^b]c`), regexp.MustCompilePOSIX(`x.z`), regexp.MustCompile(`^abc$`), regexp.MustCompile(`(?m)^abc$`), regexp.MustCompile(`(?s)a.c`), regexp.MustCompile(`(?i)ABC`), longest}
+	subjects := []string{"abc", "x\nabc\ny", "abc\n", "a\nc", "axc", "x\nz", "xyz", "ABC", "aab", "ab"}
+	for _, re := range res {
+		for _, subj := range subjects {
+			for _, mode := range []string{"Parse", "Validate"} {
+				var l z.ZogIssueList
+				if mode == "Parse" {
+					var d string
+					l = z.String().Match(re).Parse(subj, &d)
+				} else {
+					v := subj
+					l = z.String().Match(re).Validate(&v)
+				}
+				c.Eval(1)
+				if want := re.MatchString(subj); (len(l) == 0) != want {
+					c.Violation("test-decides-another-predicate|String.Match", map[string]any{"expression": re.String(), "compiled_as": fmt.Sprintf("%#v", re.String()), "subject": subj, "mode": mode, "expression_matches": want, "issues": len(l)})
+					return false
+				}
+				c.NonTrivial(fpf("re|%s|%q|%s", re.String(), subj, mode))
+			}
+		}
+	}
+	opts := []string{"o0", "o1", "o2", "o3", "o4", "o5", "o6", "o7", "o8", "o9", "o10", "o11", "o12"}
+	sch := z.String().OneOf(opts)
+	nums := []int{0, 1, 2, 3, 4, 5, 6, 7, 8, 9, 10, 11, 12}
+	nsch := z.Int().OneOf(nums)
+	for round := 0; round < 3; round++ {
+		var d string
+		var n int
+		if len(sch.Parse("nope", &d)) != 1 || len(nsch.Parse(99, &n)) != 1 {
+			c.Violation("test-passes-although-predicate-false|OneOf", map[string]any{"schema": "OneOf(13 options)", "input": "nope / 99"})
+			return false
+		}
+		for i, o := range []string{"o0", "o1", "o2", "o3", "o4", "o5", "o6", "o7", "o8", "o9", "o10", "o11", "o12"} {
+			c.Eval(2)
+			if l := sch.Parse(o, &d); len(l) != 0 {
+				c.Violation("test-fails-although-predicate-holds|OneOf-after-a-reported-failure", map[string]any{"schema": "String().OneOf(o0 … o12)", "input": o, "round": round, "issues": fmt.Sprint(z.Issues.SanitizeList(l))})
+				return false
+			}
+			if l := nsch.Parse(i, &n); len(l) != 0 && i != 0 {
+				c.Violation("test-fails-although-predicate-holds|OneOf-after-a-reported-failure", map[string]any{"schema": "Int().OneOf(0 … 12)", "input": i, "round": round})
+				return false
+			}
+		}
+		for _, o := range []string{"... (3 more)", "...", "o13"} {
+			if l := sch.Parse(o, &d); len(l) != 1 {
+				c.Violation("test-passes-although-predicate-false|OneOf-after-a-reported-failure", map[string]any{"schema": "String().OneOf(o0 … o12)", "input": o, "round": round})
+				return false
+			}
+		}
+	}
+	if fmt.Sprint(opts) != "[o0 o1 o2 o3 o4 o5 o6 o7 o8 o9 o10 o11 o12]" {
+		c.Violation("test-decides-another-predicate|OneOf-list-edited-by-the-library", map[string]any{"callers_list_now": fmt.Sprint(opts)})
+		return false
+	}
+	c.Count("regexp_and_enum_scenarios", 1)
+	return true
+}
+
 func c20SameCodeTwice(c *core.Ctx) bool {
 	m := z.Message("not allowed here")
 	type probe struct {
@@ -527,6 +592,9 @@ func (c20) RunCase(c *core.Ctx) {
 		return
 	}
 	if c.Case == 6 && !c20ItemsRewritten(c) {
+		return
+	}
+	if c.Case == 7 && !c20Regexps(c) {
 		return
 	}
 	cfg := c20Configs[c.Case]
